@@ -403,6 +403,9 @@ func c14Options() []raOpt {
 		{name: "route/0", raw: route(0, 1, 900, p16("::")), route: &refPrefix{length: 0, pref: 1, lifetime: 900}},
 		{name: "route/64", raw: route(64, 3, 1800, a64), route: &refPrefix{length: 64, pref: 3, lifetime: 1800, addr: a64}},
 		{name: "route/128", raw: route(128, 0, 60, a128), route: &refPrefix{length: 128, pref: 0, lifetime: 60, addr: a128}},
+		// prefix lengths that are not a multiple of 8: the partial byte belongs to the prefix
+		{name: "route/60", raw: route(60, 1, 300, p16("2001:db8:1:f0::")), route: &refPrefix{length: 60, pref: 1, lifetime: 300, addr: p16("2001:db8:1:f0::")}},
+		{name: "route/12", raw: route(12, 1, 300, p16("2ff0::")), route: &refPrefix{length: 12, pref: 1, lifetime: 300, addr: p16("2ff0::")}},
 		{name: "slla", raw: refnet.NDPOption(1, []byte{0x02, 0xaa, 0xbb, 0xcc, 0xdd, 0x01}), slla: []byte{0x02, 0xaa, 0xbb, 0xcc, 0xdd, 0x01}},
 		{name: "tlla", raw: refnet.NDPOption(2, []byte{0x02, 0xaa, 0xbb, 0xcc, 0xdd, 0x02})},
 		{name: "unknown14", raw: refnet.NDPOption(14, []byte{1, 2, 3, 4, 5, 6})},
@@ -570,12 +573,22 @@ func c14Check(st *c14State, frame []byte) (what string) {
 	if route != nil {
 		g := r.Options.RouteInformation
 		chk("route information", fmt.Sprintf("%d %d %v %x", g.PrefixLength, g.Preference, g.RouteLifetime, []byte(g.Prefix)),
-			fmt.Sprintf("%d %d %v %x", route.length, route.pref, time.Duration(route.lifetime)*time.Second, route.addr[:route.length/8]))
+			fmt.Sprintf("%d %d %v %x", route.length, route.pref, time.Duration(route.lifetime)*time.Second, prefixBytes(route.addr, int(route.length))))
 	}
 	if len(diffs) > 0 {
 		return strings.Join(diffs, "; ")
 	}
 	return ""
+}
+
+// prefixBytes returns the ceil(bits/8) leading bytes of a prefix with the bits beyond the prefix length cleared.
+func prefixBytes(a [16]byte, bits int) []byte {
+	n := (bits + 7) / 8
+	out := append([]byte(nil), a[:n]...)
+	if r := bits % 8; r != 0 {
+		out[n-1] &= 0xff << (8 - r)
+	}
+	return out
 }
 
 func be32u(b []byte) uint32 {
@@ -643,7 +656,7 @@ func c14LearnSweep(c *core.Ctx) {
 
 func c14Run(c *core.Ctx, args []string) {
 	c.Res.Level = "model_checking"
-	c.Res.Rule = "(a) confinement: every API history of length <=2 (thorough <=3) over {StartHunt(link-local / address-less / global / IPv4 target), StopHunt(link-local / address-less), Close} x RA delivery sequences {none, r1, r1 r1, r1 r2, r2 r1 r1 r1 r1}; stateless DFS over all schedules up to the deviation bound, then two spoof cycles, Close, two more cycles; linear-time monitor over emitted neighbour advertisements (override, hop limit 255, only to hunted MACs, only for learned routers, at most one in-flight batch after StopHunt, none one cycle after Close, IPv4 rejected, non link-local ignored, one loop per MAC). (b) router learning: every RA built from all option sequences of length <=2 (thorough <=3) over 14 options x flag set x lifetimes, DNS search lists of every padding length, and all 256 flag bytes; learned router compared with the reference decode. distinct = observation vectors (a) + distinct RA frames (b)"
+	c.Res.Rule = "(a) confinement: every API history of length <=2 (thorough <=3) over {StartHunt(link-local / address-less / global / IPv4 target), StopHunt(link-local / address-less), Close} x RA delivery sequences {none, r1, r1 r1, r1 r2, r2 r1 r1 r1 r1}; stateless DFS over all schedules up to the deviation bound, then two spoof cycles, Close, two more cycles; linear-time monitor over emitted neighbour advertisements (override, hop limit 255, only to hunted MACs, only for learned routers, at most one in-flight batch after StopHunt, none one cycle after Close, IPv4 rejected, non link-local ignored, one loop per MAC). (b) router learning: every RA built from all option sequences of length <=2 (thorough <=3) over 16 options x flag set x lifetimes, DNS search lists of every padding length, and all 256 flag bytes; learned router compared with the reference decode. distinct = observation vectors (a) + distinct RA frames (b)"
 	c.Res.Assumptions = []string{"one in-flight batch of advertisements per loop may leave after StopHunt returned", "each RA is delivered as the first of its group (the handler processes every 4th RA); at most one option of each single-valued kind per RA", "address-less targets are reached by unicast MAC + all-nodes destination (reported under C07, not here)"}
 	if c.Job == "learn" {
 		c14LearnSweep(c)
@@ -669,7 +682,33 @@ func c14Run(c *core.Ctx, args []string) {
 		exploreScenario(&sub, "C14", sc, bound)
 		c.Count("scenarios", 1)
 	}
-	c.Res.Bound = fmt.Sprintf("API histories <= %d, deviation bound %d, clock horizon 16 firings", apiLen, bound)
+	// one more deviation for the API histories of length <= 2 with one router advertisement delivered
+	var deep []*concScenario
+	for _, a := range c14Histories(2) {
+		lla := true // only the operations on the link-local target and Close (the ones that start and stop loops)
+		for _, op := range a {
+			if op != 0 && op != 4 && op != 6 {
+				lla = false
+			}
+		}
+		if lla {
+			deep = append(deep, c14Scenario(a, []int{0}))
+		}
+	}
+	for i, sc := range deep {
+		if !c.Mine(i + 7) {
+			continue
+		}
+		if c.Deadline > 0 && time.Now().Unix() > c.Deadline-30 {
+			c.Cap("time budget: deeper schedules not completed")
+			break
+		}
+		sub := *c
+		sub.Shard, sub.NShards = 0, 1
+		exploreScenario(&sub, "C14", sc, bound+1)
+		c.Count("scenarios_deeper", 1)
+	}
+	c.Res.Bound = fmt.Sprintf("API histories <= %d, deviation bound %d (%d for the %d API histories of length <= 2 with one router advertisement), clock horizon 16 firings", apiLen, bound, bound+1, len(deep))
 	c.Res.Counters["states"] = int64(c.DistinctCount())
 	c.Sample(map[string]any{"scenario": "na[StartHunt(lla),StopHunt(lla)|RA(r1)]", "schedule": []int{0, 0, 1}}, 4)
 }
